@@ -707,9 +707,14 @@ class RecordContextMatcher:
                             "Generator variable '{}' overwrites existing variable!".format(gen.target.id)
                         )
                 values = recursive_generator(node.generators[::-1])
-                for val in values:
-                    result = self.eval(node.elt)
-                    yield result
+                try:
+                    for val in values:
+                        result = self.eval(node.elt)
+                        yield result
+                finally:
+                    # The loop variables end with the generator, a later generator may use the same names
+                    for gen in node.generators:
+                        self.data.pop(gen.target.id, None)
 
             return generator_expr()
 
